@@ -116,6 +116,15 @@ def c02_docs(tier, rng):
     for a in rpool:
         for b in rpool:
             add("rtpair", one(routes=[C.route(a), C.route(b)]))
+    # triples: the overlapping pair at every position relative to a third (wildcard or unrelated) stanza, both orders
+    for third in ("", "::/64", "2001:db8:9::/64"):
+        for a, b in (("2001:db8::/64", "2001:db8::/48"), ("2001:db8::/48", "2001:db8::/64"), ("2001:db8::/64", "2001:db8:1::/64")):
+            for order in ([third, a, b], [a, third, b], [a, b, third]):
+                add("pfxtriple", one(prefixes=[C.prefix(x) for x in order]))
+    for third in ("", "::/0", "2001:db8:9::/48"):
+        for a, b in (("2001:db8::/64", "2001:db8::/48"), ("2001:db8::/48", "2001:db8::/64"), ("2001:db8::/64", "2001:db8:1::/48")):
+            for order in ([third, a, b], [a, third, b], [a, b, third]):
+                add("rttriple", one(routes=[C.route(x) for x in order]))
     # --- rdnss servers / dnssl names ---
     for sv in ([], ["::"], ["::", "::"], ["2001:db8::53"], ["2001:db8::53", "2001:db8::53"], ["2001:db8::53", "2001:DB8::53"],
                ["2001:db8::54", "2001:db8::53"], ["::", "2001:db8::54", "2001:db8::53"], ["fd00::1", "2001:db8::53", "fe80::1"],
